@@ -80,8 +80,14 @@ def check_writer(rep, prog, impl, stats, chunks="-", with_model=True, only_k=Non
             else:
                 if not crash.outs_eq(outs[:fi], ref["outs"][:fi]):
                     bad = ("c16-fault-not-surfaced", "fault at operation %d: results before the failing call differ from the fault-free run: %s vs %s" % (k, " ".join(outs[:fi])[:100], " ".join(ref["outs"][:fi])[:100]))
-                elif ref["finops"] is not None and k >= ref["finops"]:
-                    bad = ("c16-fault-not-surfaced", "fault at operation %d lies after finalize returned (operation %d) yet call %d failed" % (k, ref["finops"], fi))
+                else:
+                    # the call that fails is the call during which operation k is issued
+                    ci = crash.call_of_token(prog, fi)
+                    co = ref["callops"]
+                    lo = co[ci - 1] if ci > 0 else 0
+                    if not (ci < len(co) and lo <= k < co[ci]):
+                        bad = ("c16-fault-not-surfaced", "fault at operation %d is issued during call %d of the fault-free run (operations after each call: %s) but call %d reports the error" %
+                               (k, next((i for i, x in enumerate(co) if k < x), len(co)), co, ci))
                 nm = "new" if outs[fi].startswith("new:") or fi == 0 else (names[fi] if fi < len(names) else "finalize")
                 stats["where"][nm] = stats["where"].get(nm, 0) + 1
         if bad:
